@@ -100,6 +100,10 @@ class Var(Aggregation):
         result = (x2 / n) - (x / n) ** 2
         if self.ddof != 0:
             result = result * n / (n - self.ddof)
+        if not isinstance(n, Number):
+            # like the scalar case above (and pandas): NaN unless there are
+            # more than ddof observations
+            result = result.where(n - self.ddof > 0)
         return result
 
     def on_new(self, acc, new):
@@ -560,7 +564,8 @@ class GroupbyVar(GroupbyAggregation):
         result = (x2 / n) - (x / n) ** 2
         if self.ddof != 0:
             result = result * n / (n - self.ddof)
-        return result
+        # NaN (as pandas) unless a group has more than ddof observations
+        return result.where(n - self.ddof > 0)
 
     def on_new(self, acc, new, grouper=None):
         x, x2, n = acc
